@@ -75,6 +75,14 @@ func runOnce(t *testing.T, sp spec, s Script) evid.Outcome {
 	tr := Execute(t, s, sp.leak)
 	o := evid.Outcome{Classes: Classes(s, tr), Summary: summary(s, tr),
 		Counters: map[string]int{"script_ops_executed": tr.OpsDone, "script_ops_that_were_noops": tr.Noops, "deliveries": len(tr.Deliveries), "quiescent_snapshots": len(tr.Snaps), "divider_calls": tr.DivCalls}}
+	if tr.HarnessPanic != "" {
+		o.Skip = "harness panic (a defect of the harness, not a verdict): " + firstLine(tr.HarnessPanic)
+		return o
+	}
+	if sp.id == "C19" && tr.RetriedAfterSpin {
+		o.Skip = "first attempt of the case was abandoned; its goroutines would be counted as leaks"
+		return o
+	}
 	if tr.Spin && !sp.hangMine {
 		o.Skip = "a goroutine spins and the case never finishes (decided by C06/C07/C16)"
 		return o
@@ -294,7 +302,7 @@ func TestC15(t *testing.T) {
 		id:       "C15",
 		hangMine: true,
 		rule:     "priority-lab scripts with a wrapping divider that checks every call (strictly descending configured priorities, dividend <= H, v2 map non-nil) and, per fault plan, corrupts eligible call #k (k drawn 1..40, thorough: enumerated) by adding or removing 1..3 units while keeping the total non-zero; H may be below the constructor's minimum; oracle: contract of every call, v2 New returns ErrDividerBad for a creation fault and ErrHandlersQuantityTooSmall exactly when a share is zero, after a round fault no delivery beyond the items already in the output channel, Err() = ErrDividerBad, in-flight <= H, termination once everything is released; non-trivial = the fault hit a call made with items in flight; distinct = distinct script JSON",
-		opts:     GenOpts{Vers: []int{1, 2}, Simple: []bool{false, false, false, true}, Dividers: allDiv, Fault: true, AnyH: true},
+		opts:     GenOpts{Vers: []int{1, 2}, Simple: []bool{false, false, false, true}, Dividers: allDiv, Fault: true, AnyH: true, AddRemove: true},
 		check:    CheckC15,
 		pre:      enumerateFaults,
 		nontriv: func(s Script, tr Trace) bool {
